@@ -103,6 +103,12 @@ def build_world(scn):
 
         async def atrace(event_name, info):
             w.trace_events.append((token, event_name))
+            if scn.get("trace_yields"):
+                # an async trace callback may await: one checkpoint per event, so that a
+                # cancellation can land inside the callback (asyncio / anyio only)
+                import anyio
+
+                await anyio.lowlevel.checkpoint()
         return atrace
 
     w.make_trace = make_trace
@@ -433,6 +439,8 @@ async def do_request(api, world, name, oi, op):
     if op.get("trace"):
         ext["trace"] = world.make_trace(name, token, api.sync)
     out = {"token": token, "phase": "open"}
+    headers_before = list(headers)
+    out["_hdr_obj"] = (headers, headers_before)
     world.outcomes[(name, oi)] = out
     world.calls[token] = {"caller": name, "op": op, "body": body_bytes,
                           "headers": headers, "t_call": world.now}
